@@ -406,7 +406,7 @@ def run(ctx):
     rng = ctx.rng
     env = exprs.make_env()
     stats = collections.Counter()
-    n = 500 if ctx.quick else 8000
+    n = 1200 if ctx.quick else 8000
     done = 0
     while done < n:
         if one_case(ctx, rng, env, stats):
